@@ -795,3 +795,15 @@ package server
 //@ requires forall k int64 :: inmap(s.leaders, k) ==> s.leaders[k] != nil
 //@ assert at call Close#0: term < 0 || term == callres_Term_0
 //@ modifies *
+
+// ---------------------------------------------------------------- shard-assignment dispatcher (C18)
+
+// Registering a client for assignment updates never returns with the dispatcher's mutex
+// held (it would stop every later registration and every later update).
+//
+//@ func shardAssignmentDispatcher.RegisterForUpdates
+//@ property C18
+//@ trusted
+//@ releaseslock
+//@ modifies *
+//@ note trusted body (streams, channels, select): only the structural obligation is checked
